@@ -158,6 +158,16 @@ def trace_run(cfg, ledger=True, max_steps=None, stepper=None):
         m = sim.build_model(cfg)
     m._initialize()
     init = snapshot_params(m)
+    # the weather the USER supplied for each step (by date, from the configuration's table - not from the model's own matrix):
+    # the monitors judge rain / ET0 / temperatures against what the user gave
+    try:
+        wu = sim.make_weather(cfg["weather"]).set_index("Date")
+        rows = wu.loc[init["weather_dates"], ["MinTemp", "MaxTemp", "Precipitation", "ReferenceET"]].values.astype(float)
+        if rows.shape == init["weather"].shape:
+            init["weather_model"] = init["weather"]
+            init["weather"] = rows
+    except Exception:
+        pass
     init["th0"] = np.array(m._init_cond.th, dtype=float)
     init["surf0"] = float(m._init_cond.surface_storage)
     rec = Recorder()
